@@ -82,6 +82,10 @@ var c15Leaves = []devLeaf{
 	{"/if[name=e1]/unit[id=1]/descr", func(i int) *sdcpb.TypedValue { return strTv([]string{"u", "v", "w"}[i%3]) }},
 	{"/peer[name=n1][zone=z1]/as", func(i int) *sdcpb.TypedValue { return tvU(uint64(65000 + i%3)) }},
 	{"/types/d2", func(i int) *sdcpb.TypedValue { return tvD(int64(150+i%3), 2) }},
+	// the same datum in several representations (1.5 = 1.500): they agree, only 2.5 differs
+	{"/types/d18", func(i int) *sdcpb.TypedValue {
+		return [](*sdcpb.TypedValue){tvD(15, 1), tvD(1500, 3), tvD(25, 1)}[i%3]
+	}},
 	{"/types/u64", func(i int) *sdcpb.TypedValue { return tvU(18446744073709551613 + uint64(i%3)) }},
 	{"/types/en", func(i int) *sdcpb.TypedValue { return strTv([]string{"one", "two", "t-h-r-e-e"}[i%3]) }},
 	{"/types/bool", func(i int) *sdcpb.TypedValue { return tvB(i%2 == 1) }},
